@@ -84,56 +84,74 @@ example : (Cmd.clean false true [0]).removes (runHist true demoHist) = [0] ∧
 
 /-! ## `get_status(get_log=True)` against `get_status(get_log=False)` -/
 
-/-- the full statement: `info`'s status computation agrees with `run`'s in every situation -/
-def C20_getlog_agrees_full : Prop :=
-  ∀ (c : Checker) (d : TaskDef) (r : Rcd) (fs : FS) (resOf : Name → Option Res),
-    logStatus c d r fs resOf = statusOf true c d r fs resOf
-
-/-- **what is true of the code**: the two computations agree *exactly* outside `logDisagree` -- a file dependency is
-    missing and either another one is modified (no early exit, checker unchanged): `error` is overwritten by `run`;
-    or the `get_log=False` call leaves early with `run` and no dependency is modified: `get_log=True` says `error`.
-    (Hypothesis: no saved state of the wrong shape, i.e. no unhandled `TypeError`.)
-    Missing for `C20_getlog_agrees_full`: the two situations of `logDisagree`, see the counterexamples. -/
-theorem C20_getlog_agrees_partial (c : Checker) (d : TaskDef) (r : Rcd) (fs : FS) (resOf : Name → Option Res)
+/-- **`getlog_agrees`, full** (the tree after the `fix:` commit "status shown by `doit info` is the decision `doit run`
+    takes"): `info`'s status computation `get_status(get_log=True)` gives the status of `run`'s
+    `get_status(get_log=False)` in every situation -- every task definition, record, file system, saved results.
+    Hypothesis: no saved state of the wrong shape (`MD5Checker` meeting a float: the unhandled `TypeError` of
+    findings/pending/C03-md5-on-timestamp-state.md; `get_log=True` always reaches the file loop, `get_log=False` may
+    leave before it). -/
+theorem C20_getlog_agrees_full (c : Checker) (d : TaskDef) (r : Rcd) (fs : FS) (resOf : Name → Option Res)
     (hnc : d.deps.any (depIs .crash c r fs) = false) :
-    logStatus c d r fs resOf = statusOf true c d r fs resOf ↔ logDisagree c d r fs resOf = false :=
-  getlog_agrees_iff c d r fs resOf hnc
-
-/-- in particular they agree whenever every file dependency exists -/
-theorem C20_getlog_agrees_when_deps_present (c : Checker) (d : TaskDef) (r : Rcd) (fs : FS) (resOf : Name → Option Res)
-    (hnc : d.deps.any (depIs .crash c r fs) = false) (hpres : d.deps.any (depMissing fs) = false) :
     logStatus c d r fs resOf = statusOf true c d r fs resOf :=
-  getlog_agrees_of_present c d r fs resOf hnc hpres
+  getlog_agrees c d r fs resOf hnc
 
-/-- and always on "up-to-date" -/
+/-- … in particular, without any hypothesis, after every prefix of every history that does not switch the checker -/
+theorem C20_getlog_agrees_history (h : List Op) (hn : NoSwitch h = true) (k : Nat) (t : Name) :
+    logStatusAt (runHist true (h.take k)) t = (runHist true (h.take k)).status true t := by
+  have hk : NoSwitch (h.take k) = true := by
+    unfold NoSwitch at hn ⊢
+    rw [List.all_eq_true] at hn ⊢
+    intro o ho
+    exact hn o (List.mem_of_mem_take ho)
+  exact getlog_agrees _ _ _ _ _ (md5Only_no_crash (noSwitch_md5 true _ hk) t)
+
+/-- and on "up-to-date" whatever is saved -/
 theorem C20_getlog_agrees_on_upToDate (s : St) (t : Name) :
     logStatusAt s t = .upToDate ↔ s.status true t = .upToDate :=
   logStatus_upToDate_iff _ _ _ _ _
 
-/-- F-C20 (a): run, edit one dependency, delete the other: `run` / `list -s` say `error`, `info` says `run` -/
+/-! ### the tree before that commit (`logStatusPinned`: the last reason found decided) — F-C20 (a), (b) -/
+
+/-- the two computations agreed *exactly* outside `logDisagree` -- a file dependency is missing and either another
+    one is listed as changed (no early exit, checker unchanged): `error` was overwritten by `run`; or the
+    `get_log=False` call leaves early with `run` and no dependency is listed: `get_log=True` said `error` -/
+theorem C20_pinned_getlog_agrees_iff (c : Checker) (d : TaskDef) (r : Rcd) (fs : FS) (resOf : Name → Option Res)
+    (hnc : d.deps.any (depIs .crash c r fs) = false) :
+    logStatusPinned c d r fs resOf = statusOf true c d r fs resOf ↔ logDisagree c d r fs resOf = false :=
+  pinned_getlog_agrees_iff c d r fs resOf hnc
+
+/-- F-C20 (a): run, edit one dependency, delete the other: `run` / `list -s` say `error`, `info` said `run` -/
 def overwrittenHist : List Op :=
   [.edit 0 4 1, .edit 1 4 2, .redefine 0 ⟨[0, 1], [], []⟩, .run 0 true false [] none, .edit 0 4 3, .delete 1]
 
-theorem C20_getlog_error_overwritten_counterexample :
-    (runHist true overwrittenHist).status true 0 = .error ∧ logStatusAt (runHist true overwrittenHist) 0 = .run := by
+theorem C20_pinned_getlog_error_overwritten_counterexample :
+    (runHist true overwrittenHist).status true 0 = .error ∧
+    logStatusPinnedAt (runHist true overwrittenHist) 0 = .run := by
   decide
 
-/-- F-C20 (b): a false `uptodate` item and a missing dependency: `run` executes the task, `info` says `error` -/
+/-- F-C20 (b): a false `uptodate` item and a missing dependency: `run` executes the task, `info` said `error` -/
 def hiddenHist : List Op :=
   [.edit 0 4 1, .redefine 0 ⟨[0], [], [.const false]⟩, .run 0 true false [] none, .delete 0]
 
-theorem C20_getlog_error_hidden_counterexample :
-    (runHist true hiddenHist).status true 0 = .run ∧ logStatusAt (runHist true hiddenHist) 0 = .error := by
+theorem C20_pinned_getlog_error_hidden_counterexample :
+    (runHist true hiddenHist).status true 0 = .run ∧ logStatusPinnedAt (runHist true hiddenHist) 0 = .error := by
   decide
 
-theorem C20_getlog_counterexample : ¬ C20_getlog_agrees_full := by
+theorem C20_pinned_getlog_counterexample :
+    ¬ ∀ (c : Checker) (d : TaskDef) (r : Rcd) (fs : FS) (resOf : Name → Option Res),
+      d.deps.any (depIs .crash c r fs) = false → logStatusPinned c d r fs resOf = statusOf true c d r fs resOf := by
   intro h
   have h1 := h (runHist true overwrittenHist).checker ((runHist true overwrittenHist).defs 0)
     ((runHist true overwrittenHist).rcd 0) (runHist true overwrittenHist).fs (runHist true overwrittenHist).resOf
-  have h2 := C20_getlog_error_overwritten_counterexample
-  simp only [St.status, logStatusAt] at h2
+    (by decide)
+  have h2 := C20_pinned_getlog_error_overwritten_counterexample
+  simp only [St.status, logStatusPinnedAt] at h2
   rw [h1, h2.1] at h2
   exact absurd h2.2 (by decide)
+
+/-- the same histories on the repaired tree -/
+example : logStatusAt (runHist true overwrittenHist) 0 = .error ∧ logStatusAt (runHist true hiddenHist) 0 = .run := by
+  decide
 
 /-! ## the status shown is the decision of `run` -/
 
@@ -168,24 +186,19 @@ theorem C20_list_lines_threaded (s : St) (t : Name) (rest : List Name) (hc : s.c
 
 example : listRun (runHist true overwrittenHist) [0] = [.error] := by decide
 
-/-- the full statement for `info` -/
-def C20_info_status_agrees_full : Prop := ∀ (s : St) (t : Name), infoShown s t = decision s t
-
-/-- **`info`** (tree as repaired: the ignore mark is consulted first): the status shown is the decision of `run`
-    exactly when the task is ignored or outside the two situations of `logDisagree`.
-    Missing for `C20_info_status_agrees_full`: `logDisagree` (`C20_getlog_…_counterexample`, open findings). -/
-theorem C20_info_status_agrees_partial (s : St) (t : Name)
+/-- **`info`, full** (tree as repaired: the ignore mark is consulted first, the first reason found decides): the status
+    `doit info` shows is the decision of `run` -- ignore / up-to-date / run / error -- in every state (hypothesis as
+    for `C20_getlog_agrees_full`: no saved state of the wrong shape) -/
+theorem C20_info_status_agrees_full (s : St) (t : Name)
     (hnc : (s.defs t).deps.any (depIs .crash s.checker (s.rcd t) s.fs) = false) :
-    infoShown s t = decision s t ↔
-      ((s.rcd t).ign = true ∨ logDisagree s.checker (s.defs t) (s.rcd t) s.fs s.resOf = false) := by
-  cases hign : (s.rcd t).ign with
-  | true => simp [infoShown, decision, hign]
-  | false =>
-    rw [← getlog_agrees_iff s.checker (s.defs t) (s.rcd t) s.fs s.resOf hnc]
-    simp only [infoShown, decision, hign, Bool.false_eq_true, if_false, logStatusAt, St.status, false_or]
-    generalize logStatus s.checker (s.defs t) (s.rcd t) s.fs s.resOf = a
-    generalize statusOf true s.checker (s.defs t) (s.rcd t) s.fs s.resOf = b
-    cases a <;> cases b <;> simp [ofStatus]
+    infoShown s t = decision s t := by
+  simp only [infoShown, decision, logStatusAt, St.status, getlog_agrees _ _ _ _ _ hnc]
+
+/-- … and so `info` and `list -s` show the same -/
+theorem C20_info_agrees_with_list (s : St) (t : Name)
+    (hnc : (s.defs t).deps.any (depIs .crash s.checker (s.rcd t) s.fs) = false) :
+    infoShown s t = listShown s t :=
+  C20_info_status_agrees_full s t hnc
 
 /-- an ignored task: `info` says `ignore` as `run` and `list -s` do, prints no reason, and does not touch the DB (not
     even the documented removal: `get_status` is not called) -/
@@ -217,14 +230,12 @@ theorem C20_pinned_info_ignored_counterexample :
 /-- the same history on the repaired tree -/
 example : infoShown (runHist true ignoredHist) 0 = .ignore := by decide
 
-/-- the full statement is still false: F-C20 (a) -/
-theorem C20_info_counterexample : ¬ C20_info_status_agrees_full := by
-  intro h
-  have := h (runHist true overwrittenHist) 0
-  have h1 : infoShown (runHist true overwrittenHist) 0 = .run := by decide
-  have h2 : decision (runHist true overwrittenHist) 0 = .error := by decide
-  rw [h1, h2] at this
-  exact absurd this (by decide)
+/-- F-C20 (a) on the tree before the `fix:` commit e6acbba: `info` showed `run` where `run` reports the error -/
+theorem C20_pinned_info_counterexample :
+    ((runHist true overwrittenHist).rcd 0).ign = false ∧
+    ofStatus (logStatusPinnedAt (runHist true overwrittenHist) 0) = .run ∧
+    decision (runHist true overwrittenHist) 0 = .error ∧ infoShown (runHist true overwrittenHist) 0 = .error := by
+  decide
 
 /-! ## the reasons `info` prints -/
 
